@@ -155,11 +155,7 @@ func (t *Translator) convertSingleMessage(msg AnthropicMessage) ([]map[string]in
 
 	// user msgs can have text + tool results, assistant msgs have text + tool uses
 	if msg.Role == "user" {
-		userMsg, toolMsgs := t.convertUserMessage(contentBlocks)
-		if userMsg != nil {
-			result = append(result, userMsg)
-		}
-		result = append(result, toolMsgs...)
+		result = append(result, t.convertUserMessage(contentBlocks)...)
 	} else if msg.Role == "assistant" {
 		assistantMsg := t.convertAssistantMessage(contentBlocks)
 		if assistantMsg != nil {
@@ -170,10 +166,24 @@ func (t *Translator) convertSingleMessage(msg AnthropicMessage) ([]map[string]in
 	return result, nil
 }
 
-// split user message into text + tool results (openai needs tool results as separate messages)
-func (t *Translator) convertUserMessage(blocks []interface{}) (map[string]interface{}, []map[string]interface{}) {
+// convertUserMessage converts the content blocks of a user turn into OpenAI messages,
+// keeping the order the client gave them: text becomes a user message, every tool_result
+// a tool message. Anthropic clients list the tool results first and the follow-up text
+// after them, and a "tool" message must directly follow the assistant's tool_calls, so the
+// blocks must not be regrouped (adjacent text blocks are still joined into one message).
+func (t *Translator) convertUserMessage(blocks []interface{}) []map[string]interface{} {
+	var messages []map[string]interface{}
 	var textParts []string
-	var toolResults []map[string]interface{}
+
+	flushText := func() {
+		if len(textParts) > 0 {
+			messages = append(messages, map[string]interface{}{
+				"role":    "user",
+				"content": strings.Join(textParts, ""),
+			})
+			textParts = nil
+		}
+	}
 
 	for _, block := range blocks {
 		blockMap, ok := block.(map[string]interface{})
@@ -201,7 +211,8 @@ func (t *Translator) convertUserMessage(blocks []interface{}) (map[string]interf
 				}
 			}
 
-			toolResults = append(toolResults, map[string]interface{}{
+			flushText()
+			messages = append(messages, map[string]interface{}{
 				"role":         "tool",
 				"tool_call_id": toolUseID,
 				"content":      content,
@@ -211,16 +222,9 @@ func (t *Translator) convertUserMessage(blocks []interface{}) (map[string]interf
 			t.logger.Debug("Image content not yet supported in Phase 1")
 		}
 	}
+	flushText()
 
-	var userMsg map[string]interface{}
-	if len(textParts) > 0 {
-		userMsg = map[string]interface{}{
-			"role":    "user",
-			"content": strings.Join(textParts, ""),
-		}
-	}
-
-	return userMsg, toolResults
+	return messages
 }
 
 // combine text + tool uses into single openai message
